@@ -636,6 +636,56 @@ def c09_search(ctx):
             if w and w["key"] not in seen:
                 seen.add(w["key"])
                 out.append(w)
+        # LOOKUP fields given BY NAME (raw value None): every name of the table (up to 48 of a large one) must decode
+        # back to the same name — the name -> value dictionary must be the inverse of the value -> name one
+        try:
+            import nmea2000.pgns as _P
+            for li, lf in enumerate(d["Fields"]):
+                if lf["FieldType"] != "LOOKUP" or "Match" in lf or "LookupEnumeration" not in lf:
+                    continue
+                table = getattr(_P, "lookup_dict_" + lf["LookupEnumeration"], None) or getattr(_P, "master_dict", {}).get(lf["LookupEnumeration"], {})
+                names = [nm for v_, nm in sorted(table.items()) if isinstance(v_, int) and 0 <= v_ < (1 << lf["BitLength"]) - 1]
+                if len(names) > 48:
+                    names = names[:8] + names[-8:] + rng.sample(names[8:-8], 32)
+                for nm in names:
+                    m2 = copy.deepcopy(base)
+                    m2.fields[li].raw_value = None
+                    m2.fields[li].value = nm
+                    w = c09_check(d, m2, "LOOKUP:every-name", dec, enc)
+                    if w and w["key"] not in seen:
+                        seen.add(w["key"])
+                        out.append(w)
+                        break
+        except Exception:  # noqa: BLE001
+            pass
+        # DATE / TIME fields given by value under other process time zones: the encoding must not depend on the host
+        if any(f_["FieldType"] in ("DATE", "TIME") and "Match" not in f_ for f_ in d["Fields"]):
+            import os as _os
+            import time as _time
+            old_tz = _os.environ.get("TZ")
+            try:
+                for tz in ("CET-1CEST", "JST-9", "NZST-12", "EST5EDT"):
+                    _os.environ["TZ"] = tz
+                    _time.tzset()
+                    for ti, tf in enumerate(d["Fields"]):
+                        if tf["FieldType"] not in ("DATE", "TIME") or "Match" in tf:
+                            continue
+                        for label, m2 in mutate_message(base, d, rng, force=ti):
+                            if "value-path" not in label:
+                                continue
+                            w = c09_check(d, m2, label + ":tz", dec, enc)
+                            if w and w["key"] + ":tz" not in seen:
+                                w["key"] += ":tz"
+                                w["tz"] = tz
+                                w["what"] += f" (process time zone {tz})"
+                                seen.add(w["key"])
+                                out.append(w)
+            finally:
+                if old_tz is None:
+                    _os.environ.pop("TZ", None)
+                else:
+                    _os.environ["TZ"] = old_tz
+                _time.tzset()
         w = c09_locality(d, base, rng, enc)
         if w and w["key"] not in seen:
             seen.add(w["key"])
@@ -675,6 +725,22 @@ def c09_replay(ctx, data):
         return True
     m = NMEA2000Message(PGN=d["PGN"], id=d["Id"], priority=3, source=7, destination=255)
     m.fields = [NMEA2000Field(id=i, value=_unj(v), raw_value=_unj(r)) for i, v, r in w["fields"]]
+    if w.get("tz"):
+        import os as _os
+        import time as _time
+        old = _os.environ.get("TZ")
+        _os.environ["TZ"] = w["tz"]
+        _time.tzset()
+        try:
+            r = c09_check(d, m, w.get("class", "replay"), NMEA2000Decoder(), NMEA2000Encoder())
+        finally:
+            if old is None:
+                _os.environ.pop("TZ", None)
+            else:
+                _os.environ["TZ"] = old
+            _time.tzset()
+        print("observed:", r["what"] if r else "property holds on this input")
+        return r is not None
     r = c09_check(d, m, w.get("class", "replay"), NMEA2000Decoder(), NMEA2000Encoder())
     print("observed:", r["what"] if r else "property holds on this input")
     return r is not None
